@@ -1035,6 +1035,22 @@ pub fn run_jq(args: JqCommand) -> Result<i32> {
         && !output_config.ascii_output // ASCII output requires escaping
         && !uses_input_builtins;
 
+    // verif-hooks: `SUCCINCTLY_VERIF_FORCE_MATERIALIZE=1` disables the lazy
+    // (cursor-streaming / identity fast path) route so the same program runs
+    // through the materialised `OwnedValue` route; nothing else changes.
+    #[cfg(feature = "verif-hooks")]
+    let can_use_lazy_path = can_use_lazy_path && !verif_force_materialize();
+    #[cfg(feature = "verif-hooks")]
+    verif_trace_route(if can_use_lazy_path && !args.null_input {
+        if expr.is_identity() && output_config.can_use_raw_identity() {
+            "fast"
+        } else {
+            "lazy"
+        }
+    } else {
+        "original"
+    });
+
     if can_use_lazy_path && !args.null_input {
         // Lazy path: read files as raw bytes and process directly
         // This preserves original number formatting like "4e4"
@@ -2694,12 +2710,32 @@ fn standard_json_to_jq_value<'a, W: Clone + AsRef<[u64]>>(
     })
 }
 
+/// verif-hooks: route forcing switch (see `run_jq`).
+#[cfg(feature = "verif-hooks")]
+fn verif_force_materialize() -> bool {
+    std::env::var("SUCCINCTLY_VERIF_FORCE_MATERIALIZE").is_ok_and(|v| v == "1")
+}
+
+/// verif-hooks: with `SUCCINCTLY_VERIF_TRACE_ROUTE=1`, name the route taken on stderr.
+#[cfg(feature = "verif-hooks")]
+fn verif_trace_route(route: &str) {
+    if std::env::var("SUCCINCTLY_VERIF_TRACE_ROUTE").is_ok_and(|v| v == "1") {
+        eprintln!("verif-route: {route}");
+    }
+}
+
 /// Write a single output JqValue (preserves number formatting when possible).
 fn write_output_jq_value<Out: Write, Wrd: Clone + AsRef<[u64]>>(
     out: &mut Out,
     value: &JqValue<'_, Wrd>,
     config: &OutputConfig,
 ) -> Result<()> {
+    #[cfg(feature = "verif-hooks")]
+    verif_trace_route(if matches!(value, JqValue::Cursor(_)) {
+        "value-cursor"
+    } else {
+        "value-owned"
+    });
     // In seq mode, prepend RS (Record Separator) before each value
     if config.seq {
         out.write_all(&[ASCII_RS])?;
